@@ -811,6 +811,8 @@ def r5_definition(R) -> None:
             _check_name_list(R, fq, nm, ty, canon(x), fsym, fwhere)
     # numbering: variables are numbered endogenous, exogenous, parameters, errors (the order of NAMES)
     got = numbering_order(R, ft, fse)
+    if got is not None and '?' in got:
+        raise Unknown(f'{fq}: which kinds of names are numbered, in which order, was not read (read as {got})')
     if got is not None:
         want = list(FIELDS.values())
         R.check(got == want, fq, 'twin-numbering', 'Fortran variable numbers follow ENDOGENOUS + EXOGENOUS + PARAMETERS + ERRORS',
